@@ -66,6 +66,16 @@ class C16(core.Check):
         for body in ("coord", "cmp"):
             out.append(mk(("range", "lo", "hi", None), body, pre=[("decl", "int", "lo", I(-1)), ("decl", "int", "hi", I(3))], tag="varbounds"))
             out.append(mk(("range", "hi", "lo", "st"), body, pre=[("decl", "int", "lo", I(-1)), ("decl", "int", "hi", I(3)), ("decl", "int", "st", I(-2))], tag="varbounds-step"))
+        # bodies that re-bind / use names of the ENCLOSING scope (entity variable, int shadowed by the iterator)
+        pre = [("place", "last", "small-lamp", I(0), I(36), None)]
+        body = [("prop", "last", "enable", B(">", V("a"), V("i"))), ("replace", "last", "small-lamp", B("*", V("i"), I(2)), I(36))]
+        for it in (("range", 1, 4, None), ("list", [3, 5]), ("range", 1, 2, None), ("range", 2, 2, None)):
+            stmts = gen.prog_with_inputs(["a"], pre + [("for", "i", it, body), ("prop", "last", "enable", B(">", V("a"), I(9)))])
+            out.append({"tag": "rebind-outer-entity", "it": it, "body": "rebind", "stmts": stmts})
+        pre2 = [("decl", "int", "n", I(5)), ("place", "e0", "small-lamp", I(0), I(38), None)]
+        body2 = [("place", "e", "small-lamp", B("+", V("n"), I(1)), I(38), None), ("prop", "e", "enable", B(">", V("a"), V("n")))]
+        stmts = gen.prog_with_inputs(["a"], pre2 + [("for", "n", ("range", 1, 3, None), body2), ("prop", "e0", "enable", B(">", V("a"), V("n")))])
+        out.append({"tag": "iterator-shadows-outer-int", "it": "n in 1..3", "body": "shadow", "stmts": stmts})
         # nested loops
         nest_body = [("place", "e", "small-lamp", B("+", B("*", V("i"), I(4)), V("j")), B("+", I(30), V("i")), None),
                      ("prop", "e", "enable", B(">", V("a"), B("+", V("i"), V("j"))))]
